@@ -7,7 +7,7 @@ set -u
 ID="$1"; K="$2"; shift 2
 PROPS="${*:-$ID}"
 HERE="$(cd "$(dirname "$0")/.." && pwd)"
-SRC="/tmp/seed/$ID/SEED"
+SRC="${SEED_ROOT:-/tmp/seed}/$ID/SEED"
 DST="$HERE/seeded/$ID-$K"
 mkdir -p "$DST"
 [ -f "$SRC/patch$K.diff" ] && cp "$SRC/patch$K.diff" "$DST/patch.diff"
